@@ -3,6 +3,7 @@ the state's own has_interaction matrix as *the* presence relation (DESIGN.md §2
 
 Each oracle returns a list of (sub, sig, detail) triples; the caller turns them into Violations.
 """
+import numbers
 from fractions import Fraction
 import dynetx as dn
 from .model import runs_of
@@ -59,7 +60,7 @@ def canonical(G, conf, ctx=None, what='graph'):
                 if not isinstance(iv, (list, tuple)) or len(iv) != 2:
                     bad = 'interval-shape'
                     break
-                if not (isinstance(iv[0], int) and isinstance(iv[1], int)):
+                if not (isinstance(iv[0], numbers.Integral) and isinstance(iv[1], numbers.Integral)):
                     bad = 'interval-type'
                     break
                 if iv[0] > iv[1]:
